@@ -249,6 +249,21 @@ def «_cds_lfq_dequeue_rcu» : Stmt :=
   .loop (block [(.prim (some "_t1") .uload [.fieldAddr (.var "q") "head", .cst "CMM_CONSUME" (1)]), (.assign "head" (.var "_t1")), (.prim (some "_t2") .uload [.fieldAddr (.var "head") "next", .cst "CMM_CONSUME" (1)]), (.assign "next" (.var "_t2")), (.ifte (.bin .land (.pload (.fieldAddr (.var "head") "dummy")) (.bin .eq (.var "next") (.null))) (.ret (some (.null))) (.skip)), (.ifte (.un .lnot (.var "next")) (block [(.call none ["q"] [.var "q"] «enqueue_dummy»), (.prim (some "_t3") .uload [.fieldAddr (.var "head") "next", .cst "CMM_CONSUME" (1)]), (.assign "next" (.var "_t3"))]) (.skip)), (.prim (some "_t4") .uload [.fieldAddr (.var "q") "tail", .cst "CMM_CONSUME" (1)]), (.ifte (.bin .eq (.var "_t4") (.var "head")) (.prim none .ucmpxchg [.fieldAddr (.var "q") "tail", .var "head", .var "next", .cst "CMM_SEQ_CST" (5), .cst "CMM_SEQ_CST" (5)]) (.skip)), (.prim (some "_t5") .ucmpxchg [.fieldAddr (.var "q") "head", .var "head", .var "next", .cst "CMM_SEQ_CST" (5), .cst "CMM_SEQ_CST" (5)]), (.ifte (.bin .ne (.var "_t5") (.var "head")) (.cont) (.skip)), (.ifte (.pload (.fieldAddr (.var "head") "dummy")) (block [(.call none ["node"] [.var "head"] «rcu_free_dummy»), (.cont)]) (.skip)), (.ret (some (.var "head")))])
 def «_cds_lfq_dequeue_rcu.params» : List String := ["q"]
 
+/-- `_cds_lfs_push_rcu` (include/urcu/static/rculfstack.h) -/
+def «_cds_lfs_push_rcu» : Stmt :=
+  block [(.assign "head" (.null)), (.loop (block [(.assign "old_head" (.var "head")), (.assign "_t1" (.var "head")), (.pstore (.fieldAddr (.var "node") "next") (.var "_t1")), (.ifte (.pload (.addrGlob "CONFIG_RCU_EMIT_LEGACY_MB")) (.prim none .mb []) (.skip)), (.prim (some "_t2") .ucmpxchg [.fieldAddr (.var "s") "head", .var "old_head", .var "node", .cst "CMM_SEQ_CST" (5), .cst "CMM_SEQ_CST" (5)]), (.assign "head" (.var "_t2")), (.ifte (.bin .eq (.var "old_head") (.var "head")) (.brk) (.skip))])), (.ret (some (.un .lnot (.un .lnot (.var "head")))))]
+def «_cds_lfs_push_rcu.params» : List String := ["s", "node"]
+
+/-- `_cds_lfs_pop_rcu` (include/urcu/static/rculfstack.h) -/
+def «_cds_lfs_pop_rcu» : Stmt :=
+  .loop (block [(.prim (some "_t1") .uload [.fieldAddr (.var "s") "head", .cst "CMM_CONSUME" (1)]), (.assign "head" (.var "_t1")), (.ifte (.var "head") (block [(.prim (some "_t2") .uload [.fieldAddr (.var "head") "next", .cst "CMM_CONSUME" (1)]), (.assign "next" (.var "_t2")), (.prim (some "_t3") .ucmpxchg [.fieldAddr (.var "s") "head", .var "head", .var "next", .cst "CMM_SEQ_CST" (5), .cst "CMM_SEQ_CST" (5)]), (.ifte (.bin .eq (.var "_t3") (.var "head")) (block [(.ifte (.pload (.addrGlob "CONFIG_RCU_EMIT_LEGACY_MB")) (.prim none .mb []) (.skip)), (.ret (some (.var "head")))]) (.cont))]) (.ret (some (.null))))])
+def «_cds_lfs_pop_rcu.params» : List String := ["s"]
+
+/-- `_cds_wfq_enqueue` (include/urcu/static/wfqueue.h) -/
+def «_cds_wfq_enqueue» : Stmt :=
+  block [(.ifte (.pload (.addrGlob "CONFIG_RCU_EMIT_LEGACY_MB")) (.prim none .mb []) (.skip)), (.prim (some "_t1") .uxchg [.fieldAddr (.var "q") "tail", .fieldAddr (.var "node") "next", .cst "CMM_SEQ_CST" (5)]), (.assign "old_tail" (.var "_t1")), (.prim none .ustore [.var "old_tail", .var "node", .cst "CMM_RELEASE" (3)])]
+def «_cds_wfq_enqueue.params» : List String := ["q", "node"]
+
 /-- `urcu_ref_get_safe` (include/urcu/ref.h) -/
 def «urcu_ref_get_safe» : Stmt :=
   block [(.prim (some "_t1") .uload [.fieldAddr (.var "ref") "refcount", .cst "CMM_RELAXED" (0)]), (.assign "old" (.var "_t1")), (.loop (block [(.ifte (.bin .eq (.var "old") (.cst "LONG_MAX" (9223372036854775807))) (.ret (some (.lit 0))) (.skip)), (.assign "_new" (.bin .add (.var "old") (.lit 1))), (.prim (some "_t2") .ucmpxchg [.fieldAddr (.var "ref") "refcount", .var "old", .var "_new", .cst "CMM_SEQ_CST_FENCE" (6), .cst "CMM_RELAXED" (0)]), (.assign "res" (.var "_t2")), (.ifte (.bin .eq (.var "res") (.var "old")) (.ret (some (.lit 1))) (.skip)), (.assign "old" (.var "res"))]))]
@@ -631,5 +646,5 @@ def «bp.urcu_bp_synchronize_rcu.params» : List String := []
 
 /-- functions the translator could not express in the IR subset (listed, never defaulted) -/
 def untranslated : List String := []
-def translated : List String := ["urcu_memb_smp_mb_slave", "_urcu_memb_read_lock_update", "_urcu_memb_read_lock", "urcu_common_wake_up_gp", "_urcu_memb_read_unlock_update_and_wakeup", "_urcu_memb_read_unlock", "_urcu_memb_read_ongoing", "_urcu_mb_read_lock_update", "_urcu_mb_read_lock", "_urcu_mb_read_unlock_update_and_wakeup", "_urcu_mb_read_unlock", "_urcu_mb_read_ongoing", "urcu_bp_smp_mb_slave", "_urcu_bp_read_lock_update", "_urcu_bp_read_lock", "_urcu_bp_read_unlock", "_urcu_bp_read_ongoing", "_urcu_qsbr_read_lock", "_urcu_qsbr_read_unlock", "_urcu_qsbr_read_ongoing", "urcu_qsbr_wake_up_gp", "_urcu_qsbr_quiescent_state_update_and_wakeup", "_urcu_qsbr_quiescent_state", "_urcu_qsbr_thread_offline", "_urcu_qsbr_thread_online", "___cds_wfs_end", "_cds_wfs_push", "___cds_wfs_node_sync_next", "___cds_wfs_pop", "___cds_wfs_pop_all", "_cds_wfs_empty", "___cds_lfs_empty_head", "_cds_lfs_push", "___cds_lfs_pop", "___cds_lfs_pop_all", "_cds_lfs_empty", "___cds_wfcq_append", "_cds_wfcq_enqueue", "_cds_wfcq_empty", "___cds_wfcq_busy_wait", "___cds_wfcq_node_sync_next", "_cds_wfcq_node_init_atomic", "___cds_wfcq_dequeue_with_state", "___cds_wfcq_splice", "_cds_lfq_enqueue_rcu", "make_dummy", "enqueue_dummy", "rcu_free_dummy", "_cds_lfq_dequeue_rcu", "urcu_ref_get_safe", "urcu_ref_put", "urcu_ref_get_unless_zero", "urcu_wait_add", "urcu_move_waiters", "urcu_wait_set_state", "_cds_wfs_node_init", "urcu_wait_node_init", "urcu_adaptative_wake_up", "urcu_adaptative_busy_wait", "call_rcu_wait", "call_rcu_wake_up", "call_rcu_completion_wait", "call_rcu_completion_wake_up", "wake_call_rcu_thread", "_cds_wfcq_node_init", "_call_rcu", "futex_wait", "futex_wake_up", "wake_worker_thread", "wake_up_defer", "wait_defer", "rcu_defer_barrier_queue", "_rcu_defer_barrier_thread", "rcu_defer_barrier_thread", "_defer_rcu", "_cds_wfs_first", "___cds_wfs_next", "_cds_wfs_next_blocking", "urcu_wake_all_waiters", "set_thread_cpu_affinity", "_cds_wfcq_init", "___cds_wfcq_splice_blocking", "___cds_wfcq_first", "___cds_wfcq_first_blocking", "___cds_wfcq_next", "___cds_wfcq_next_blocking", "call_rcu_thread", "call_rcu", "call_rcu_lock", "urcu_ref_set", "call_rcu_unlock", "rcu_barrier", "_rcu_barrier_complete", "free_completion", "workqueue_thread", "urcu_workqueue_queue_work", "urcu_workqueue_create_completion", "urcu_ref_get", "urcu_workqueue_queue_completion", "urcu_workqueue_wait_completion", "urcu_workqueue_destroy_completion", "urcu_workqueue_flush_queued_work", "urcu_workqueue_pause_worker", "urcu_workqueue_resume_worker", "_urcu_workqueue_wait_complete", "memb.smp_mb_master", "memb.wait_gp", "urcu_common_reader_state", "memb.wait_for_readers", "memb.synchronize_rcu", "mb.smp_mb_master", "mb.wait_gp", "mb.wait_for_readers", "mb.synchronize_rcu", "qsbr.wait_gp", "urcu_qsbr_reader_state", "qsbr.wait_for_readers", "qsbr.urcu_qsbr_read_ongoing", "qsbr.urcu_qsbr_thread_offline", "qsbr.urcu_qsbr_thread_online", "qsbr.urcu_qsbr_synchronize_rcu", "bp.smp_mb_master", "urcu_bp_reader_state", "bp.wait_for_readers", "bp.urcu_bp_synchronize_rcu"]
+def translated : List String := ["urcu_memb_smp_mb_slave", "_urcu_memb_read_lock_update", "_urcu_memb_read_lock", "urcu_common_wake_up_gp", "_urcu_memb_read_unlock_update_and_wakeup", "_urcu_memb_read_unlock", "_urcu_memb_read_ongoing", "_urcu_mb_read_lock_update", "_urcu_mb_read_lock", "_urcu_mb_read_unlock_update_and_wakeup", "_urcu_mb_read_unlock", "_urcu_mb_read_ongoing", "urcu_bp_smp_mb_slave", "_urcu_bp_read_lock_update", "_urcu_bp_read_lock", "_urcu_bp_read_unlock", "_urcu_bp_read_ongoing", "_urcu_qsbr_read_lock", "_urcu_qsbr_read_unlock", "_urcu_qsbr_read_ongoing", "urcu_qsbr_wake_up_gp", "_urcu_qsbr_quiescent_state_update_and_wakeup", "_urcu_qsbr_quiescent_state", "_urcu_qsbr_thread_offline", "_urcu_qsbr_thread_online", "___cds_wfs_end", "_cds_wfs_push", "___cds_wfs_node_sync_next", "___cds_wfs_pop", "___cds_wfs_pop_all", "_cds_wfs_empty", "___cds_lfs_empty_head", "_cds_lfs_push", "___cds_lfs_pop", "___cds_lfs_pop_all", "_cds_lfs_empty", "___cds_wfcq_append", "_cds_wfcq_enqueue", "_cds_wfcq_empty", "___cds_wfcq_busy_wait", "___cds_wfcq_node_sync_next", "_cds_wfcq_node_init_atomic", "___cds_wfcq_dequeue_with_state", "___cds_wfcq_splice", "_cds_lfq_enqueue_rcu", "make_dummy", "enqueue_dummy", "rcu_free_dummy", "_cds_lfq_dequeue_rcu", "_cds_lfs_push_rcu", "_cds_lfs_pop_rcu", "_cds_wfq_enqueue", "urcu_ref_get_safe", "urcu_ref_put", "urcu_ref_get_unless_zero", "urcu_wait_add", "urcu_move_waiters", "urcu_wait_set_state", "_cds_wfs_node_init", "urcu_wait_node_init", "urcu_adaptative_wake_up", "urcu_adaptative_busy_wait", "call_rcu_wait", "call_rcu_wake_up", "call_rcu_completion_wait", "call_rcu_completion_wake_up", "wake_call_rcu_thread", "_cds_wfcq_node_init", "_call_rcu", "futex_wait", "futex_wake_up", "wake_worker_thread", "wake_up_defer", "wait_defer", "rcu_defer_barrier_queue", "_rcu_defer_barrier_thread", "rcu_defer_barrier_thread", "_defer_rcu", "_cds_wfs_first", "___cds_wfs_next", "_cds_wfs_next_blocking", "urcu_wake_all_waiters", "set_thread_cpu_affinity", "_cds_wfcq_init", "___cds_wfcq_splice_blocking", "___cds_wfcq_first", "___cds_wfcq_first_blocking", "___cds_wfcq_next", "___cds_wfcq_next_blocking", "call_rcu_thread", "call_rcu", "call_rcu_lock", "urcu_ref_set", "call_rcu_unlock", "rcu_barrier", "_rcu_barrier_complete", "free_completion", "workqueue_thread", "urcu_workqueue_queue_work", "urcu_workqueue_create_completion", "urcu_ref_get", "urcu_workqueue_queue_completion", "urcu_workqueue_wait_completion", "urcu_workqueue_destroy_completion", "urcu_workqueue_flush_queued_work", "urcu_workqueue_pause_worker", "urcu_workqueue_resume_worker", "_urcu_workqueue_wait_complete", "memb.smp_mb_master", "memb.wait_gp", "urcu_common_reader_state", "memb.wait_for_readers", "memb.synchronize_rcu", "mb.smp_mb_master", "mb.wait_gp", "mb.wait_for_readers", "mb.synchronize_rcu", "qsbr.wait_gp", "urcu_qsbr_reader_state", "qsbr.wait_for_readers", "qsbr.urcu_qsbr_read_ongoing", "qsbr.urcu_qsbr_thread_offline", "qsbr.urcu_qsbr_thread_online", "qsbr.urcu_qsbr_synchronize_rcu", "bp.smp_mb_master", "urcu_bp_reader_state", "bp.wait_for_readers", "bp.urcu_bp_synchronize_rcu"]
 end UrcuVerif.Gen.Src
